@@ -59,6 +59,13 @@ pub struct Duo {
     /// "uniform" | "sticky" | "lockstep"
     pub strategy: String,
     pub sched_seed: u64,
+    /// path of the second caller's file below the scratch root; the same stem as the first
+    /// caller's with another extension is what a tool writing `fw.hex` and `fw.eep` produces
+    #[serde(default = "out2_default")]
+    pub path: String,
+}
+fn out2_default() -> String {
+    OUT2_REL.to_string()
 }
 
 pub const OUT2_REL: &str = "out/second.hex";
@@ -330,6 +337,7 @@ pub fn scenario_shape(tier: &str, base_seed: u64, g: u64) -> Scenario {
                 fill_seed: seed ^ 0xD00,
                 strategy: ["uniform", "sticky", "lockstep"][r.usize(3)].to_string(),
                 sched_seed: seed ^ 0x5C4ED,
+                path: [OUT2_REL, "out/image.eep", "out/image.eep.hex", "out/image"][r.usize(4)].to_string(),
             })
         } else {
             None
@@ -382,10 +390,19 @@ pub fn execute(sc: &Scenario, scratch: &Scratch, budget: u64) -> Result<RunOut, 
     }
     let img = image(sc.len, &sc.fill, sc.fill_seed);
     let other = other_image(sc.len, sc.fill_seed);
+    // the other fields of the BuildResult are those of some device (or of none): the records
+    // must not depend on them
+    let (fsz, esz, rsz) = {
+        let mut r = Rng::new(sc.fill_seed ^ 0x51535);
+        let f = [4194304u32, 4194304, 0, 512, 1024, 2048, 4096, 8192, 16384, 32768, 65536, 65536, 262144][r.usize(13)];
+        let e = [65536u32, 65536, 0, 64, 128, 256, 512, 1024, 2048, 4096][r.usize(10)];
+        let m = [8388608u32, 0, 64, 128, 512, 1024, 4096, 8192, 16384][r.usize(9)];
+        (f, e, m)
+    };
     let br = if sc.writer == "code" {
-        BuildResult { code: img, eeprom: other, flash_size: 4194304, eeprom_size: 65536, ram_size: 8388608, ram_filling: 0, messages: vec![] }
+        BuildResult { code: img, eeprom: other, flash_size: fsz, eeprom_size: esz, ram_size: rsz, ram_filling: 0, messages: vec![] }
     } else {
-        BuildResult { code: other, eeprom: img, flash_size: 4194304, eeprom_size: 65536, ram_size: 8388608, ram_filling: 0, messages: vec![] }
+        BuildResult { code: other, eeprom: img, flash_size: fsz, eeprom_size: esz, ram_size: rsz, ram_filling: 0, messages: vec![] }
     };
     let mut st = SimState::new(&scratch.root_str());
     st.rules = rules_to_sim(&sc.rules)?;
@@ -448,7 +465,7 @@ fn execute_duo(sc: &Scenario, duo: &Duo, scratch: &Scratch, st: SimState, br: Bu
     } else {
         BuildResult { code: other2, eeprom: img2, flash_size: 4194304, eeprom_size: 65536, ram_size: 8388608, ram_filling: 0, messages: vec![] }
     };
-    let out2 = scratch.path(OUT2_REL);
+    let out2 = scratch.path(&duo.path);
     let strategy = match duo.strategy.as_str() {
         "lockstep" => Strategy::RoundRobin,
         "sticky" => Strategy::Sticky(300),
